@@ -5,6 +5,31 @@ V = os.path.dirname(os.path.dirname(os.path.abspath(__file__)))
 props = [json.loads(l) for l in open(os.path.join(V, "properties.jsonl"))]
 
 CLAIMED = {
+ "C02": dict(
+  text="Machine-checked proof (Coq 8.16) that, for the set transitions REGENERATED from vopy/algorithms/*.py on every run (discarding / pareto_updating / epsiloncovering / useful_updating / compute_pessimistic_set; refinement to the reference transitions of Spec.v by reflexivity), a design leaves S without entering P exactly when the source's own is_dominated call (predicate, argument order and slack read from the source) certifies it against a witness from S∪U (PaVeBa family) or from the pessimistic set (VOGP, eps-PAL, VOGP_AD discarding), for every state and every region assignment; Auer on a hand-written reference transition. Tied to /repo by the translator and by a runtime correspondence: real algorithm objects driven by stub posteriors, reference round recomputed by the extracted verified deciders on the displayed regions.",
+  note="Trusted: Coq kernel; translator (py2coq.py, algos.py); hand-written Auer transition; extraction (ExtrOcamlBasic) + driver; cvxpy/numpy inside the implementation modelled (tolerance band). All theorems closed under the global context.",
+  technique="Coq proof over translator-regenerated transitions + extracted reference-round correspondence", design="4/C02"),
+ "C03": dict(
+  text="Machine-checked proof (Coq 8.16) over the regenerated transitions that a candidate enters P exactly when the source's is_covered call answers false against every other member of the active set (S1∪U resp. S1∪P), that P only grows, that U is exactly the members of P that can still cover a remaining candidate, and Auer's hold-back rule on the reference transition; every state and region assignment. Tied to /repo by the translator and the runtime correspondence (incl. heteroscedastic Auer widths and cones with more facets than objectives).",
+  note="Trusted as for C02. All theorems closed under the global context.",
+  technique="Coq proof over translator-regenerated transitions + extracted reference-round correspondence", design="4/C03"),
+ "C06": dict(
+  text="Machine-checked proof (Coq 8.16): the regenerated rounds keep S shrinking, P growing, S/P disjoint, U within P and new P members coming from S, for whole runs; the control flow of run_one_step of all nine algorithms is regenerated as instruction lists and proved (for every environment and state) to return True exactly on the completion condition, to be idle after completion, to advance the round counter once per active step and to account for every requested evaluation and its cost. Runtime correspondence checks the same on real algorithm objects over whole runs with a recording proxy on algorithm.problem (batch sizes larger than the active set, budgets, K>m cones).",
+  note="Trusted as for C02 plus translator steps.py; NaiveElimination/DecoupledGP run with real models (modelled). Crash-freedom is checked at run time, not proved. All theorems closed under the global context.",
+  technique="Coq proof (invariants over regenerated transitions + step machine) + whole-run correspondence", design="4/C06"),
+ "C09": dict(
+  text="Machine-checked proof (Coq 8.16) that the regenerated vertex-pair test of RectangularConfidenceRegion.is_dominated is equivalent to 'every point of R2 plus slack dominates every point of R1', boundary included, for every cone matrix and dimension (affine functional non-negative on all vertices of a box is non-negative on the box); for ellipsoids, soundness of the exact support-function decider over Q and the square-root sign analysis, support function and Cauchy–Schwarz over R. Tied to /repo by the translator and by differential checks (exact for rectangles with integer cones; outside a tolerance band for bundled cones and ellipsoids).",
+  note="Trusted: Coq kernel; translator for the rectangle method; hand-written ellipsoid decider (cvxpy SOCP, sqrtm, inv modelled); extraction + driver. Q theorems closed under the global context; R theorems use the standard real-number axioms.",
+  technique="Coq proof (vertex lemma, support function) + extracted-decider differential check", design="4/C09"),
+ "C10": dict(
+  text="Machine-checked proof (Coq 8.16): the LP that RectangularConfidenceRegion.is_covered poses (regenerated from the source) is the exists-exists specification, and a verified Fourier–Motzkin procedure decides it for every cone and dimension; for ellipsoids, verified certificate checkers (witness pair => coverable, separating functional => not coverable; Cauchy–Schwarz for symmetric psd forms). The implementation (cvxpy) is compared with the extracted decider / checked certificates outside a tolerance band, across scales 2^-13..2^7 including tiny late-run regions.",
+  note="Trusted: Coq kernel; translator for the posed LP; cvxpy solver behaviour modelled (band); certificates come from an untrusted solve and are checked; extraction + driver. All theorems closed under the global context.",
+  technique="Coq proof (Fourier–Motzkin, certificate soundness) + extracted-decider differential check", design="4/C10"),
+ "C11": dict(
+  text="Machine-checked proof (Coq 8.16) that the model of check_dominates / is_pt_in_extended_polytope answers true only if every point of R1 dominates some point of R2, for every cone and dimension, and that the regenerated compute_pessimistic_set is exactly the active designs no other active design pessimistically dominates. Completeness for 2x2 cones is not proved; it is tested against the exact Fourier–Motzkin specification with a margin (partial). The hand-written model is tied to the code by exact correspondence on dyadic rectangles.",
+  note="Trusted: Coq kernel; hand-written model Pessimistic.v (correspondence); translator for compute_pessimistic_set; extraction + driver. All theorems closed under the global context. PARTIAL: 2x2 completeness is a test, not a theorem.",
+  technique="Coq proof (soundness by convexity) + exact model correspondence + FM-oracle test of completeness", design="4/C11"),
+
  "C12": dict(
   text="Machine-checked proof (Coq 8.16) over the definitions regenerated from OrderingCone.is_inside / PolyhedralConeOrder.dominates / the bundled cone constructors: facet characterisation, reflexivity, transitivity, translation and positive-scaling invariance, antisymmetry for pointed cones, batched = map, orthant, 3-D cone literals (equal row norms, diagonal inside). Tied to /repo by the translator on every run and by an exact-arithmetic differential check of the implementation against the extracted model on rational lattices and random cones.",
   note="Trusted: Coq kernel; translator (py2coq.py/targets.py) for the listed functions; ExtrOcamlBasic extraction + driver.ml; numpy matmul/compare modelled. Q-level theorems closed under the global context; R-level angle theorems use the standard-library real-number axioms (sig_forall_dec, sig_not_dec, functional_extensionality_dep, classic).",
